@@ -77,7 +77,10 @@ func c06gen(rng *rand.Rand, hp *Pool, cat []catEntry) c06op {
 	all := hp.Vals
 	n := func(fam ...string) string { return c06pick(rng, all, fam...).Name }
 	small := func() string { return fmt.Sprint(rng.Intn(7) - 3) }
-	switch rng.Intn(16) {
+	switch rng.Intn(18) {
+	case 16, 17:
+		// index expression whose index is an earlier value (ranges with and without step, ints, arrays of indices)
+		return c06op{"index by earlier value", fmt.Sprintf("%s[%s]", n("arr", "str", "range", "obj", "map"), n("range", "range", "int", "arr", "str"))}
 	case 0, 1, 2, 3:
 		e := cat[rng.Intn(len(cat))]
 		src, shape := c01callSource(rng, hp, e)
@@ -85,15 +88,15 @@ func c06gen(rng *rand.Rand, hp *Pool, cat []catEntry) c06op {
 	case 4:
 		return c06op{"literal [*a, x]", fmt.Sprintf("[*%s, %s]", n("arr"), n())}
 	case 5:
-		return c06op{"literal {**o, k: v}", fmt.Sprintf("{**%s, k: %s, a: %s}", n("obj"), n(), n())}
+		return c06op{"literal {k: v, **o}", fmt.Sprintf("{k: %s, a: %s, **%s}", n(), n(), n("obj"))}
 	case 6:
-		return c06op{"literal %{**m, k: v}", fmt.Sprintf("%%{**%s, %s: %s}", n("map", "obj"), n(), n())}
+		return c06op{"literal %{k: v, **m}", fmt.Sprintf("%%{%s: %s, **%s}", n(), n(), n("map", "obj"))}
 	case 7:
 		if rng.Intn(2) == 0 {
 			// two ** expansions in one call: the second must not be merged into the first operand
 			return c06op{"call with two ** expansions", fmt.Sprintf("{|x, k: 1| [\\_, x, k]}(%s, **%s, **%s)", n(), n("obj"), n("obj"))}
 		}
-		return c06op{"call with *args/**kwargs", fmt.Sprintf("{|x, y, k: 1| [\\0, \\_, x, k]}(*%s, **%s, k: %s)", n("arr"), n("obj"), n())}
+		return c06op{"call with *args/**kwargs", fmt.Sprintf("{|x, y, k: 1| [\\0, \\_, x, k]}(*%s, k: %s, **%s)", n("arr"), n(), n("obj"))}
 	case 8:
 		ch := []string{"@", "=@", "~@", "&@"}[rng.Intn(4)]
 		return c06op{"list chain " + ch + " literal", fmt.Sprintf("%s%s{|x| [x, x]}", n("arr", "obj", "map", "range", "str"), ch)}
